@@ -11,11 +11,11 @@ import json
 import os
 
 from core import LeanDriver, canon, CORPUS_DIR, Result
-from gen import lockcfg
+from gen import lockcfg, importids
 import lib_sched as L
 
 ID = "C20"
-GENERATORS = [lockcfg.generate]
+GENERATORS = [lockcfg.generate, importids.generate]
 LEAN_MODULES = ["FimVerif.Proofs.C20"]
 P = "FimVerif.C20."
 THEOREMS = [P + t for t in (
@@ -28,7 +28,7 @@ THEOREMS = [P + t for t in (
     "no_release_error", "store_never_replaced", "singleton_guard_stable", "store_threads_safe",
     "atoms_accepted", "store_threads_safe_atomwise",
     "weak_guard_counterexample", "unlocked_alloc_counterexample", "double_release_counterexample", "split_increment_counterexample",
-    "reinit_counterexample")]
+    "reinit_counterexample", "idless_imports_get_fresh_ids", "idless_imports_are_graphs_of_their_own")]
 TRUSTED_BASE = [
     "gen/lockcfg.py: AST -> Stmt translation of both storage classes after normalisation N1-N5 (with-statement = acquire/try/"
     "finally/release, re-raise-only handlers dropped, calls of methods of the same class expanded in place, locals renamed by what "
@@ -56,6 +56,15 @@ TRUSTED_BASE = [
     "harness/lib_sched.py: sys.settrace line scheduler (thread switches between source lines of the store classes and between the "
     "elements of an unlocked scan of a node dictionary), instrumented lock substituted for storage.lock, probes substituted for the "
     "store's graphs / start_id / graph_node_ids, folding of the observed atoms of one line into micro-instructions (Recorder.fold)",
+    "graph ids the LIBRARY allocates (import_graph_from_string / import_graph_from_file without graph_id): the model's graphs are "
+    "indices; an id-less import operation has an index of its own and the library-generated id is mapped to the index of the "
+    "operation that first handed it to the store (lib_sched.note_alias / space_of) - so the model's `each graph` is the "
+    "implementation's only if every such import gets an id of its own (Model/ImportEntry.lean `Fresh`, "
+    "idless_imports_are_graphs_of_their_own).  That is not proved of uuid4: it is probed (gen/importids.py: every id-less entry "
+    "point twice on both importers, two paths and one rewritten path; theorem idless_imports_get_fresh_ids) and checked by the "
+    "oracle on every id-less import of every case (C20:<flavour>:<kind>:graph-id-not-fresh; graphs identified by the handle the "
+    "import returned).  The importer methods themselves are not traced (no preemption between reading a document and the store "
+    "call; they touch no shared state before it)",
     "symbol instantiation: a generated skeleton uses symbolic counter/graph/size codes; Lock.instStmt instantiates them with the "
     "operation's graph index and node count.  The lock theorems are proved for every instantiation (balanced_inst); the discipline "
     "monitor is proved on the symbolic skeletons and checked (`accepts`) on every observed concrete program",
@@ -66,7 +75,9 @@ ASSUMPTIONS = ["the logger a store singleton is created with is a logging.Logger
                "no KeyboardInterrupt / MemoryError / SystemExit inside a store method",
                "CPython with the GIL"]
 RULE = ("every case twice: store singleton created without and with a logger; sequential: histories of 4-12 store calls on 1-3 graph ids incl. failing imports, calls with an unhashable graph id, duplicate "
-        "ids, delete-then-reimport, del_all_graphs, non-trivial = at least one failing call or one call on an already-present id; "
+        "ids, delete-then-reimport, del_all_graphs, imports through the importer's document entry points (import_graph_from_string / "
+        "import_graph_from_file, GraphML / JSON, one work file per thread rewritten before each load) with a graph id and WITHOUT one "
+        "(each id-less import is a graph of its own, identified by the returned handle; every such id must be new), non-trivial = at least one failing call or one call on an already-present id; "
         "threaded: 2-3 threads x 1-4 operations (imports, node creation through the API, deletes of one / all graphs, reads, failing "
         "calls), every line of the store and every element of an unlocked node scan a preemption point, non-trivial = at least one "
         "preemption; distinct by canonical (flavour, ops, decisions)")
@@ -87,10 +98,15 @@ def rep():
 # case generation
 
 UNH_KINDS = ["get_graph_unh", "extract_graph_unh", "del_graph_unh", "add_blank_unh"]     # failing calls: unhashable graph id
+# the importer's document entry points (lib_sched.run_import): import_graph_from_string / import_graph_from_file on GraphML or
+# JSON text, WITHOUT a graph id (the library allocates one; the operation's graph index is unique in its case and stands for
+# whatever id comes back) and with one
+IMP_KINDS = list(L.IMPORT_KINDS)
 SEQ_KINDS = ["add_graph", "add_graph", "add_graph_bad", "add_graph_direct", "del_graph", "extract_graph", "get_graph",
-             "add_blank", "add_node", "del_all_graphs"] * 2 + UNH_KINDS
+             "add_blank", "add_node", "del_all_graphs"] * 2 + UNH_KINDS + IMP_KINDS + list(L.IDLESS_KINDS)
 THR_KINDS = ["add_graph", "add_blank", "add_node", "add_blank", "add_graph_direct", "del_graph", "extract_graph", "get_graph",
-             "add_graph_bad", "del_all_graphs"] * 3 + UNH_KINDS
+             "add_graph_bad", "del_all_graphs"] * 3 + UNH_KINDS + IMP_KINDS * 2 + list(L.IDLESS_KINDS) * 2
+SIZED = ("add_graph", "imp_")      # kinds whose third field is a node count
 EXPECT_ERR = {"add_graph_bad": "import", "get_graph_unh": "type", "extract_graph_unh": "type", "del_graph_unh": "type",
               "add_blank_unh": "type"}
 
@@ -104,6 +120,10 @@ SEQ_CORNERS = [
     [["add_graph", 1, 0], ["add_graph", 1, 1], ["add_graph_bad", 2, 1], ["del_graph", 3, 0]],
     [["add_graph", 1, 2], ["get_graph_unh", 1, 1], ["add_blank", 1, 1], ["extract_graph_unh", 1, 1], ["get_graph", 1, 0],
      ["del_graph_unh", 1, 1], ["add_blank_unh", 1, 1], ["del_graph", 1, 0]],                  # failing calls must give the lock back
+    # every import entry point twice without a graph id (each call is a graph of its own), then with one
+    [["imp_file", 11, 3], ["imp_file", 12, 4], ["imp_string", 13, 2], ["imp_string", 14, 3], ["imp_file", 15, 1],
+     ["imp_file_id", 1, 2], ["imp_string_id", 1, 3], ["imp_string_id", 2, 1], ["imp_file", 16, 2], ["add_blank", 1, 1]],
+    [["add_graph", 1, 2], ["imp_string", 11, 2], ["imp_file", 12, 2], ["del_graph", 1, 0], ["imp_file", 13, 1], ["imp_file_id", 1, 1]],
 ]
 
 
@@ -164,7 +184,9 @@ def gen_seq(rng, n):
         ops = []
         for _ in range(rng.randrange(4, 13)):
             k = rng.choice(SEQ_KINDS)
-            ops.append([k, rng.randrange(1, 4), rng.randrange(1, 4) if k.startswith("add_graph") else 1])
+            ops.append([k, rng.randrange(1, 4), rng.randrange(1, 4) if k.startswith(SIZED) else 1])
+            if k in L.IDLESS_KINDS:
+                ops[-1][1] = 10 + len(ops)
         cases.append({"kind": "seq", "flavour": rng.choice(("shared", "disjoint")), "ops": ops})
     return cases
 
@@ -182,7 +204,14 @@ THR_CORNERS = [
     ([["add_graph", 1, 1]], [[["del_all_graphs", 1, 0]], [["add_blank", 1, 1], ["extract_graph", 1, 0]], [["add_graph", 2, 2], ["del_graph", 2, 0]]]),
     # failing calls (unhashable id) next to working ones: the lock must come back
     ([["add_graph", 1, 2]], [[["get_graph_unh", 1, 1], ["add_blank", 1, 1]], [["extract_graph_unh", 1, 1], ["add_blank", 1, 1]]]),
+    # threads importing documents without naming a graph id (file and string entry points), next to imports that name one
+    ([], [[["imp_file", 11, 3], ["imp_string", 12, 1]], [["imp_file", 21, 4], ["imp_string_id", 1, 2]]]),
+    ([["imp_string", 31, 2]], [[["imp_string", 11, 2], ["add_blank", 1, 1]], [["imp_file", 21, 2]], [["imp_file_id", 1, 3]]]),
 ]
+
+
+# two threads, each importing one file without a graph id
+IDLESS_CORNER = ([], [[["imp_file", 11, 3]], [["imp_file", 21, 4]]])
 
 
 # two threads importing under an id that is already present (the per-graph store's early return, with its warning)
@@ -197,7 +226,9 @@ def gen_thr_case(rng):
         ops = []
         for _ in range(rng.randrange(1, 4 if nthreads == 3 else 5)):
             k = rng.choice(THR_KINDS)
-            ops.append([k, rng.randrange(1, 3), rng.randrange(1, 4) if k.startswith("add_graph") else 1])
+            ops.append([k, rng.randrange(1, 3), rng.randrange(1, 4) if k.startswith(SIZED) else 1])
+            if k in L.IDLESS_KINDS:
+                ops[-1][1] = 10 * (len(threads) + 1) + len(ops)
         threads.append(ops)
     return setup, threads
 
@@ -285,8 +316,8 @@ def spec_serial(flavour, ordered_ops):
     for (kind, g, k, uniq) in ordered_ops:
         cur = graphs.setdefault(g, set())
         ids = {"%s-n%d" % (L.gid(g), i) for i in range(k)}
-        if kind in ("add_graph", "add_graph_direct"):
-            if flavour == "disjoint" and kind == "add_graph" and cur:
+        if kind in ("add_graph", "add_graph_direct") + L.IMPORT_KINDS:
+            if flavour == "disjoint" and kind != "add_graph_direct" and cur:
                 continue                                   # documented: an id that is present is skipped
             graphs[g] = set(ids)
         elif kind == "add_graph_bad":
@@ -319,7 +350,7 @@ def store_nodeids(flavour, imp):
     return out
 
 
-REBUILDERS = {"add_graph", "add_graph_direct", "add_graph_bad", "del_graph", "del_all_graphs"}
+REBUILDERS = {"add_graph", "add_graph_direct", "add_graph_bad", "del_graph", "del_all_graphs", "imp_string_id", "imp_file_id"}
 MUTATORS = {"add_graph", "add_graph_direct", "del_graph", "del_all_graphs", "add_blank_node_to_graph"}
 
 
@@ -371,7 +402,34 @@ def check_results(case, ops_results, res, payload):
                           fl, op[0], r[1], msg), payload, expected="ok", observed=r)
 
 
-def check_final(case, r, results, imp, res, payload, ordered_ops, blank_ids):
+def imported_ids(ops_results):
+    """[(kind, graph index, graph id of the returned handle)] of the importer entry point calls that returned"""
+    return [(op[0], op[1], r[1]) for op, r in ops_results if op[0] in L.IMPORT_KINDS and r[0] == "ok"]
+
+
+def check_fresh(case, imported, res, payload):
+    """identifier allocation for imported graphs: an import that names no graph id gets an id of its own - not one another
+    import of the history got, not one a caller chose; an import that names one comes back as that graph"""
+    fl = case["flavour"]
+    given = {}
+    for kind, g, rid in imported:
+        res.evaluations += 1
+        if kind not in L.IDLESS_KINDS:
+            if rid != L.gid(g):
+                res.violation("C20:%s:%s:handle-for-another-graph" % (fl, kind), "%s store: %s with graph_id %s returned a handle for "
+                              "graph %s" % (fl, kind, L.gid(g), rid), payload, expected=L.gid(g), observed=rid)
+            continue
+        if not isinstance(rid, str) or not rid or rid in given or L.space_of(rid) != g:
+            other = given.get(rid, L.space_of(rid) if isinstance(rid, str) else None)
+            res.violation("C20:%s:%s:graph-id-not-fresh" % (fl, kind),
+                          "%s store: %s without a graph id was given graph id %r, which %s" % (
+                              fl, kind, rid, "is no id" if not isinstance(rid, str) or not rid else
+                              "the import of graph %s already has: two imports, one graph" % other), payload,
+                          expected="a graph id of its own for every import that names none", observed=rid)
+        given.setdefault(rid, g)
+
+
+def check_final(case, r, results, imp, res, payload, ordered_ops, blank_ids, imported=()):
     fl = case["flavour"]
     ident = r["identity"] if r is not None else L.identity(L._REC)
     if ident:
@@ -383,11 +441,14 @@ def check_final(case, r, results, imp, res, payload, ordered_ops, blank_ids):
     if r is not None and r["stuck"]:
         res.violation("C20:%s:threads-blocked-forever" % fl, "threads %s never finished (lock never released)" % r["stuck"], payload)
         return
+    check_fresh(case, imported, res, payload)
     spec = spec_serial(fl, ordered_ops)
     got = store_nodeids(fl, imp)
-    for g in sorted(set(spec) | {int(x.split("-")[1]) for x in got if x and x.startswith("graph-")}):
+    # a graph is identified by the handle its import returned (an id-less import: whatever id the library chose)
+    names = {g: rid for kind, g, rid in imported if kind in L.IDLESS_KINDS and isinstance(rid, str)}
+    for g in sorted(set(spec) | {L.space_of(x) for x in got if x and L.space_of(x)}):
         want = sorted(spec.get(g, set()))
-        have = sorted(str(x) for x in got.get(L.gid(g), []))
+        have = sorted(str(x) for x in got.get(names.get(g, L.key_of(g)), []))
         if want != have:
             lost = sorted(set(want) - set(have))
             extra = sorted(set(have) - set(want))
@@ -434,7 +495,7 @@ def eval_seq(case, res):
         G = st.graphs if case["flavour"] == "shared" else st.graphs.get(L.gid(space))
         if G is not None and i in G.nodes:
             live.append((space, i))
-    check_final(case, None, results, imp, res, payload, ordered, live)
+    check_final(case, None, results, imp, res, payload, ordered, live, imported_ids(zip(case["ops"], results)))
     return results, rec, snap, views
 
 
@@ -458,7 +519,9 @@ def eval_thr(case, res):
                 G = st.graphs if case["flavour"] == "shared" else st.graphs.get(L.gid(space))
                 if G is not None and rr[1] in G.nodes:
                     blank.append((space, rr[1]))
-    check_final(case, r, r["results"], r["imp"], res, payload, ordered, blank)
+    pairs = list(zip(case.get("setup", ()), r.get("setup_results", ()))) + \
+        [(op, rr) for ops, rs in zip(case["threads"], r["results"]) for op, rr in zip(ops, rs)]
+    check_final(case, r, r["results"], r["imp"], res, payload, ordered, blank, imported_ids(pairs))
     return r, views, payload
 
 
@@ -525,7 +588,7 @@ def correspondence(ctx, res):
     bound = ctx.scale(1, 2)
     budget = ctx.scale(150, 2500)
     for fl, lg in (("shared", False), ("disjoint", True), ("disjoint", False), ("shared", True)):
-        for setup, threads in THR_CORNERS[:ctx.scale(2, 5)] + [DUP_CORNER]:
+        for setup, threads in THR_CORNERS[:ctx.scale(2, 5)] + [IDLESS_CORNER, DUP_CORNER]:
             if lg != ((setup, threads) == DUP_CORNER):
                 continue                    # exhaustive exploration with a logger: the corner that reaches a logger-conditioned branch
             def visit(r, fl=fl, setup=setup, threads=threads, lg=lg):
@@ -605,7 +668,7 @@ def oracle(ctx, res, scale=1):
     # exhaustive within the preemption bound
     bound = ctx.scale(1, 2)
     for fl, lg in (("shared", False), ("disjoint", False), ("disjoint", True), ("shared", True)):
-        for setup, threads in THR_CORNERS[:ctx.scale(3, 6)] + [DUP_CORNER]:
+        for setup, threads in THR_CORNERS[:ctx.scale(3, 6)] + [IDLESS_CORNER, DUP_CORNER]:
             if lg != ((setup, threads) == DUP_CORNER):
                 continue                    # exhaustive exploration with a logger: the corner that reaches a logger-conditioned branch
             # explore needs the property evaluated per run: re-run each explored schedule through eval_thr
